@@ -289,9 +289,11 @@ class LiftCase:
             if agrees_with(idx):
                 return ('C15/lifting/operand/narop/'
                         'operand-argument-not-unwrapped')
-        if hook == 'narop' and self.src == 'method' and self.akind == 'nchan' \
-                and overridden_by(a, self.e['name']):
-            return 'C15/lifting/channels/method-narop/nested-ChannelList'
+        if self.src == 'method' and self.akind == 'nchan' \
+                and (overridden_by(a, self.e['name']) or '').startswith('ChannelList.'):
+            # ChannelList's own (UGen oriented) operator methods perform on
+            # ugen_param wrappers; a nested list becomes a UGenSequence
+            return 'C15/lifting/channels/overridden-method/nested-ChannelList'
         if hook == 'narop' and self.expand:
             return 'C15/lifting/channels/narop/list-argument-not-expanded'
         if self.src == 'builtin' and hook == 'binop' and not self.number_left \
